@@ -819,6 +819,7 @@ func corpusSliceHead(dir string) []byte {
 }
 
 var c07EncBin, c07DecBin string
+var c07ToolMode int
 
 // runTool writes in to a temporary file, runs bin [args] infile outfile and returns the output file.
 func runTool(bin string, in []byte, args ...string) ([]byte, error) {
@@ -1086,12 +1087,47 @@ func cencRun(rep *Report, tw7, tw6 *TraceWriter, job *cencJob, key []byte, name 
 		}()
 		var dec []byte
 		if job.tool {
-			out, err := runTool(c07DecBin, enc, "-key", hex.EncodeToString(key))
+			// three ways to hand the tool its init segment (rotating): inside the input; inside the input AND as -init file;
+			// only as -init file with the media segments as input (the output then has no init: the clear one is put in front)
+			c07ToolMode++
+			initLen := 0
+			if top, err := walkBoxes(enc, 0); err == nil {
+				for _, b := range top {
+					if b.Type == "moov" {
+						initLen = b.Start + b.Size
+					}
+				}
+			}
+			args := []string{"-key", hex.EncodeToString(key)}
+			in := enc
+			mode := c07ToolMode % 3
+			if mode != 0 && initLen > 0 {
+				dir, err := ioutil.TempDir("", "c07init")
+				if err != nil {
+					rt["err"] = err.Error()
+					return
+				}
+				defer os.RemoveAll(dir)
+				ip := filepath.Join(dir, "init.mp4")
+				if err := ioutil.WriteFile(ip, enc[:initLen], 0o644); err != nil {
+					rt["err"] = err.Error()
+					return
+				}
+				args = append([]string{"-init", ip}, args...)
+				if mode == 2 {
+					in = enc[initLen:]
+				}
+			}
+			out, err := runTool(c07DecBin, in, args...)
 			if err != nil {
-				rt["err"] = "mp4ff-decrypt: " + err.Error()
+				rt["err"] = fmt.Sprintf("mp4ff-decrypt (init mode %d): %v", mode, err)
 				return
 			}
 			dec = out
+			if mode == 2 && initLen > 0 {
+				dec = cat(job.initBytes, out)
+			}
+			rt["tool_init_mode"] = mode
 		} else {
 			f2, err := mp4.DecodeFile(bytes.NewReader(enc))
 			if err != nil {
